@@ -249,6 +249,10 @@ fn do_import_types(item: TokenStream) -> Result<TokenStream, syn::Error> {
         .add_root_schema(root_schema)
         .map_err(|e| into_syn_err(e, schema.span()))?;
 
+    #[cfg(typify_verif)]
+    typify_impl::verif::event("macro_stream", || {
+        serde_json::json!({ "schema": schema.value(), "tokens": type_space.to_stream().to_string() })
+    });
     let path_str = path.to_string_lossy();
     let output = quote! {
         #type_space
